@@ -12,7 +12,7 @@ from ..engine.explore import Outcome
 from . import signals
 
 PID = 'C04'
-TIMEOUT = 60.0
+TIMEOUT = 1800.0
 RULE = ('per signal: 4 envelope configs x 4 step sizes x (7 sd/rilling rules x 5 iteration limits + 4 fixed counts) '
         'get_next_imf calls + energy-threshold calls, each compared with the reference iterate sequence; '
         'non-trivial = signal whose extraction takes >= 2 iterations under some configuration')
